@@ -44,18 +44,7 @@ def run(ctx):
     ctx.sample(walks[len(walks) // 3])
     # unbounded: the ranking argument (seg*(N+1) + N - pos decreases at every step) is proved with TLAPS for every N
     if not ctx.quick:
-        import subprocess, shutil, os, re
-        work = ctx.path("tlaps")
-        os.makedirs(work, exist_ok=True)
-        shutil.copy(os.path.join(vlib.SPEC, "DnsWalkProof.tla"), work)
-        try:
-            p = subprocess.run(["tlapm", "--threads", "16", "--cleanfp", "DnsWalkProof.tla"], cwd=work, capture_output=True, text=True, timeout=1500)
-            m = re.search(r"All (\d+) obligations? proved", p.stdout + p.stderr)
-            if not m:
-                raise vlib.Inconclusive("TLAPS did not discharge DnsWalkProof.tla:\n" + (p.stdout + p.stderr)[-1500:])
-            ctx.notes["tlaps"] = {"module": "DnsWalkProof.tla", "theorem": "Spec => [](Inv /\\ StepBound) for every N \\in Nat", "obligations": int(m.group(1)), "discharged": int(m.group(1))}
-        except subprocess.TimeoutExpired:
-            raise vlib.Inconclusive("TLAPS timeout on DnsWalkProof.tla")
+        ctx.tlaps("DnsWalkProof", theorem="Spec => [](Inv /\\ StepBound) for every N \\in Nat")
     # (b) framing and typing on the wire domain
     fams = ["names", "opt", "decodeonly", "sections"] if ctx.quick else [f for f in c13.FAMILIES if f != "pad"]
     cases = c13.wire_cases(ctx, fams)
